@@ -31,6 +31,9 @@ const (
 	// Size limit for a single serialized event within a batch.
 	apiMaxEventSize int = 1_000_000
 
+	// maxBatchPrealloc bounds the capacity reserved for a new batch.
+	maxBatchPrealloc int = 1000
+
 	// Libhoney uses 80 for this, but in a high-volume environment we may need
 	// more. Under ideal conditions this limit is never approached.
 	maxConcurrentBatches = 500
@@ -227,7 +230,9 @@ func (d *DirectTransmission) EnqueueEvent(ev *types.Event) {
 	// Add event to batch
 	batch.mutex.Lock()
 	if batch.events == nil {
-		batch.events = make([]*types.Event, 0, d.maxBatchSize)
+		// MaxBatchSize has no upper bound in validation: never reserve more than a
+		// sane number of slots up front, append grows the slice if it is really needed
+		batch.events = make([]*types.Event, 0, min(d.maxBatchSize, maxBatchPrealloc))
 		batch.startTime = d.Clock.Now()
 	}
 	batch.events = append(batch.events, ev)
